@@ -3,6 +3,7 @@ package p_kv
 import (
 	"context"
 	"fmt"
+	"strings"
 	"sync"
 	"testing"
 	"testing/synctest"
@@ -45,6 +46,7 @@ func genWCase(t *rapid.T, maxLen int, clock bool, faults ...bool) WCase {
 		case "put", "casok", "create":
 			op.Exp = clock && rapid.IntRange(0, 3).Draw(t, "exp") == 0
 			op.Past = clock && op.K != "create" && rapid.IntRange(0, 7).Draw(t, "past") == 0
+			op.Journal = op.K != "create" && rapid.IntRange(0, 3).Draw(t, "journal") == 0
 		case "advance":
 			op.Min = rapid.SampledFrom([]int{25, 47, 90}).Draw(t, "min")
 		}
@@ -88,6 +90,12 @@ func TestC07InmemRapid(t *testing.T) {
 
 // RunC07Redis plays a script on its own miniredis server with bounded real time.
 func RunC07Redis(c WCase) (info WInfo, v *vstat.Violation, infra error) {
+	return runC07Redis(c, 5*time.Second)
+}
+
+// runC07Redis: bound = how long after the 200 ms settling time a waiter that must return may still take (machine stalls; a
+// violation of the bound is confirmed by re-runs before it is reported).
+func runC07Redis(c WCase, bound time.Duration) (info WInfo, v *vstat.Violation, infra error) {
 	m, err := miniredis.Run()
 	if err != nil {
 		return info, nil, err
@@ -97,7 +105,7 @@ func RunC07Redis(c WCase) (info WInfo, v *vstat.Violation, infra error) {
 	defer st.(interface{ Close() error }).Close()
 	settle := func(must []chan struct{}) bool {
 		time.Sleep(200 * time.Millisecond) // longer than the longest poll gap (64 ms) of the Redis waiter
-		deadline := time.After(5 * time.Second)
+		deadline := time.After(bound)
 		for _, ch := range must {
 			select {
 			case <-ch:
@@ -108,6 +116,17 @@ func RunC07Redis(c WCase) (info WInfo, v *vstat.Violation, infra error) {
 		return true
 	}
 	env := &WEnv{Name: "redis", St: st, Now: time.Now, Advance: func(d time.Duration) { m.FastForward(d) }, Settle: settle,
+		Quiet: time.Sleep,
+		Raw: func(key string) []byte {
+			for _, k := range m.Keys() {
+				if strings.HasSuffix(k, key) {
+					if b, err := m.Get(k); err == nil {
+						return []byte(b)
+					}
+				}
+			}
+			return nil
+		},
 		Fault: func() {
 			m.SetError("LOADING the harness makes every command fail for a moment")
 			time.Sleep(180 * time.Millisecond) // longer than the longest poll gap: every parked waiter polls into the fault
@@ -126,6 +145,45 @@ func versionScripts() []WCase {
 			WCase{Ops: []WOp{{K: "create"}, {K: "put"}, {K: "start", Ver: ver}, {K: "start", Ver: (ver + 3) % 11}, {K: "delete"}}})
 	}
 	return out
+}
+
+// quietScripts: waiters that have been parked for a while (seconds of real time with nothing happening) before the change,
+// the cancellation or the removal comes: "promptly" must not depend on how long the waiter has been waiting. The bound
+// is tight here (1 s beyond the settling time; the longest poll gap of the Redis waiter is 64 ms).
+func quietScripts() []WCase {
+	var out []WCase
+	for _, ms := range []int{2100, 4300} {
+		for _, wake := range []WOp{{K: "put"}, {K: "delete"}, {K: "casok"}, {K: "cancel"}, {K: "putmany", Two: true}} {
+			out = append(out, WCase{Ops: []WOp{{K: "put"}, {K: "start"}, {K: "start"}, {K: "quiet", Quiet: ms}, wake}})
+		}
+	}
+	return out
+}
+
+// TestC07RedisQuiet runs the quietScripts, all at once.
+func TestC07RedisQuiet(t *testing.T) {
+	st := vstat.For("C07")
+	scripts := quietScripts()
+	viols := make([]*vstat.Violation, len(scripts))
+	infos := make([]WInfo, len(scripts))
+	var wg sync.WaitGroup
+	for i := range scripts {
+		wg.Add(1)
+		go func(i int) {
+			defer wg.Done()
+			for try := 0; try < 3; try++ {
+				infos[i], viols[i], _ = runC07Redis(scripts[i], time.Second)
+				if viols[i] == nil || viols[i].Sig != "redis:wait-not-woken" {
+					break // a bound exceeded three times in a row is no machine stall
+				}
+			}
+		}(i)
+	}
+	wg.Wait()
+	for i := range scripts {
+		st.Report(t, "TestC07RedisQuiet", scripts[i], viols[i])
+		recordC07(scripts[i], infos[i], "redis-quiet")
+	}
 }
 
 func TestC07RedisRapid(t *testing.T) {
@@ -190,6 +248,18 @@ func replayC07(t *testing.T, env *vstat.Envelope, p string) {
 		t.Fatalf("cannot decode %s: %v", p, err)
 	}
 	st := vstat.For("C07")
+	if env.Test == "TestC07RedisQuiet" {
+		var info WInfo
+		var v *vstat.Violation
+		for try := 0; try < 3; try++ {
+			if info, v, _ = runC07Redis(c, time.Second); v == nil || v.Sig != "redis:wait-not-woken" {
+				break
+			}
+		}
+		st.Report(t, "TestReplay", c, v)
+		recordC07(c, info, "redis-quiet")
+		return
+	}
 	if env.Test == "TestC07RedisRapid" {
 		info, v, infra := RunC07Redis(c)
 		if infra != nil {
